@@ -8,11 +8,11 @@ use serde_json::json;
 use std::sync::atomic::{AtomicU64, Ordering};
 use std::sync::Mutex;
 
-pub const VOLS: [f64; 11] = [-60.0, -20.0, -6.0, -0.5, 0.0, 0.5, 1.0, 2.0, 6.0, 20.0, 60.0];
+pub const VOLS: [f64; 13] = [-60.0, -20.0, -6.0, -0.5, -0.001, 0.0, 0.001, 0.5, 1.0, 2.0, 6.0, 20.0, 60.0];
 
 pub fn run(tier: Tier) -> i32 {
     let rep = Report::new("C16", tier, "model_checking");
-    rep.set_rule("SCOPE: volumes {-60,-20,-6,-0.5,0,0.5,1,2,6,20,60} dB x voices (V0 mel-cepstral, generated mel-cepstral, generated LSP 3- and 2-stream) x short utterances x (default condition + every single further deviation); oracle: every sample = 10^(v/20) x the 0 dB sample (rel 1e-12), get_volume within 1e-9, all other getters unchanged; plus streaming use: generate_step into pre-filled buffers of 1x/2x/3x fperiod + 1 samples, where the produced frame is scaled and everything else in the buffer equals the 0 dB run; distinct = (voice, other deviation, utterance, volume); non-trivial = v != 0 and non-empty waveform");
+    rep.set_rule("SCOPE: volumes {-60,-20,-6,-0.5,-0.001,0,0.001,0.5,1,2,6,20,60} dB x voices (V0 mel-cepstral, generated mel-cepstral, generated LSP 3- and 2-stream) x short utterances x (default condition + every single further deviation); oracle: every sample = 10^(v/20) x the 0 dB sample (rel 1e-12), get_volume within 1e-9, all other getters unchanged; plus streaming use: generate_step into pre-filled buffers of 1x/2x/3x fperiod + 1 samples, where the produced frame is scaled and everything else in the buffer equals the 0 dB run; distinct = (voice, other deviation, utterance, volume); non-trivial = v != 0 and non-empty waveform");
     rep.assume("volume lattice only; comparison skipped on samples that are non-finite in the 0 dB run");
     let corpus = labels::corpus();
     let utts: Vec<Vec<String>> = vec![vec![corpus[41].clone()], corpus[40..43].to_vec(), corpus[0..2].to_vec()];
